@@ -299,6 +299,18 @@ pub fn run<W: Write>(opts: &Opts, out: &mut W) {
             wbases.push((format!("synth{k}"), riff(&[chunk(b"VP8L", &p)]), false));
         }
     }
+    // every rule of the lossless format broken in turn (each family several times: the planted values are random,
+    // e.g. the explicit max_symbol field at the top of its 16-bit range)
+    for (vi, want) in crate::synth::VIOLATIONS.iter().enumerate() {
+        for rep in 0..(if thorough { 12 } else { 4 }) {
+            let mut r = rng.fork(6500 + (vi * 100 + rep) as u64);
+            let (w, h) = *r.pick(&[(1u32, 1u32), (4, 3), (9, 1), (17, 5)]);
+            let (p, _) = crate::synth::synth_vp8l(&mut r, w, h, Some(*want));
+            if p.len() <= 800 {
+                wbases.push((format!("rule-{want}-{rep}"), riff(&[chunk(b"VP8L", &p)]), false));
+            }
+        }
+    }
     let nwb = wbases.len();
     for (bi, (name, base, allow)) in wbases.iter().enumerate() {
         c.webp(&format!("{name}-base"), "base", &Sparse::from_bytes(base), *allow);
